@@ -80,7 +80,19 @@ fn main() {
     }
     let seed: i64 = std::env::var("VERIF_SEED").ok().and_then(|s| s.parse().ok()).unwrap_or(0);
     let start = Instant::now();
-    let rep = match a5verif::checks::run(prop, tier, &verif_dir) {
+    let ran = std::panic::catch_unwind(std::panic::AssertUnwindSafe(|| a5verif::checks::run(prop, tier, &verif_dir)));
+    let ran = match ran {
+        Ok(r) => r,
+        Err(e) => {
+            // a panic outside `subj::guard` is a fault of the checker (typically: a subject output it did not
+            // expect while building its alphabet). Never a verdict, never silent.
+            let msg = e.downcast_ref::<&str>().map(|s| s.to_string()).or_else(|| e.downcast_ref::<String>().cloned()).unwrap_or_default();
+            let at = a5verif::subj::LAST_PANIC.lock().map(|g| g.clone()).unwrap_or_default();
+            println!("MACHINERY: the checker panicked at {}: {}", at, msg);
+            std::process::exit(2);
+        }
+    };
+    let rep = match ran {
         Some(r) => r,
         None => {
             eprintln!("unknown property {}", prop);
